@@ -28,7 +28,8 @@ ASSUMPTIONS = ["mf/exprmodel.py (tokenizer + precedence parser, 150 lines) resta
 DOMAIN = ["binary operators are written with spaces on both sides (the lexer's signed-number and unquoted-string terminals make "
           "'[a]-1' and '--' different token sequences)", "NOT only at the top or under AND/OR/NOT",
           "function-call arguments are simple operands", "nesting depth <= 20",
-          "regular expressions do not start with '*' ('/*' opens a comment) and contain no '/'"]
+          "regular expressions do not start with '*' ('/*' opens a comment) and contain no '/'",
+          "number-like list elements are not preceded by a space ('{a, 1.50}' is lexed as ' 1' followed by '.50')"]
 
 HOSTS = [("class", "expression", "CLASS\nEXPRESSION {}\nEND"), ("layer", "filter", "LAYER\nFILTER {}\nEND"),
          ("class", "text", "CLASS\nTEXT {}\nEND"), ("style", "geomtransform", "STYLE\nGEOMTRANSFORM {}\nEND"),
@@ -127,13 +128,15 @@ VERBATIM = [
 def verbatim(ctx, eng, r):
     """List expressions, regular expressions, function calls and bindings keep their elements verbatim."""
     res = ctx.res
-    words = ["a", "b c", "d-e", "x_1", "it's", "10", "A:B"]
+    words = ["a", "b c", "d-e", "x_1", "it's", "10", "A:B", "007", "01234", "1.50", "2.00", "+5", "1e3", "-0", "true", "NULL"]
     cases = list(VERBATIM)
     for _ in range(ctx.n(2400, 48000)):
         k = r.random()
         if k < 0.35:
             els = [r.choice(words) for _ in range(r.randint(1, 5))]
             sep = r.choice([",", ", ", " ,"])
+            if any(e[:1] in "0123456789+-." for e in els):
+                sep = ","  # a number-like element after a space is lexed as ' 1' + '.50' (tokenisation fact, like '[a]-1')
             cases.append(("class", "expression", "{" + sep.join(els) + "}"))
         elif k < 0.6:
             body = "".join(r.choice("ab^$.*+|[]() 09") for _ in range(r.randint(1, 10)))
